@@ -428,3 +428,73 @@ def ob_obname_edges(k: int, d: int, copy: int, n: int) -> int:
     post: _ == 0
     """
     return obname_check(realize(UV_EDGES[k] + d), realize(copy), realize(n), False)
+
+
+def text_any_check(ci, s):
+    """Any (also non-ASCII) short text: encoded exactly when it is ASCII, otherwise refused with UnicodeEncodeError -
+    never replaced, dropped or escaped."""
+    code = RepC.IDENT if ci == 0 else RepC.ASCII
+    try:
+        r = write_struct(code, s)
+    except UnicodeEncodeError:
+        return 0 if not s.isascii() else 1
+    if not s.isascii():
+        return 2
+    b = lits(r)
+    if b is None or len(b) != len(s) + 1 or b[0] != len(s):
+        return 3
+    for i in range(len(s)):
+        if b[1 + i] != ord(s[i]):
+            return 4
+    return 0
+
+
+CP_EDGES = [0, 31, 126, 127, 128, 129, 255, 256, 2047, 2048, 65535, 65536, 1114111]
+N_CP = len(CP_EDGES)
+
+
+def ob_text_codepoints(ci: int, k: int, second: bool) -> int:
+    """
+    One- and two-character texts whose (last) character sits at the edges of the ASCII range and of the UTF-8 length
+    classes (enumerated window; a fully symbolic non-ASCII string makes CrossHair enumerate code points).
+    pre: 0 <= ci <= 1 and 0 <= k < N_CP
+    post: _ == 0
+    """
+    c = chr(CP_EDGES[realize(k)])
+    return text_any_check(realize(ci), ('A' + c) if second else c)
+
+
+def reach_text_codepoints(ci: int, k: int, second: bool) -> int:
+    """
+    pre: 0 <= ci <= 1 and 0 <= k < N_CP
+    post: _ != 0
+    """
+    c = chr(CP_EDGES[realize(k)])
+    return text_any_check(realize(ci), ('A' + c) if second else c)
+
+
+def dtime_year_check(y):
+    """Years outside 1900..2155 cannot be represented (one byte, offset 1900): refused, never wrapped."""
+    utc = FakeDT(y, 6, 15, 12, 0, 0, 0)
+    try:
+        r = write_struct(RepC.DTIME, utc)
+    except struct.error:
+        return 0 if not (1900 <= y <= 2155) else 1
+    if not (1900 <= y <= 2155):
+        return 2
+    b = lits(r)
+    return 0 if (b is not None and b[0] == y - 1900) else 3
+
+
+def ob_dtime_year(y: int) -> int:
+    """
+    post: _ == 0
+    """
+    return dtime_year_check(y)
+
+
+def reach_dtime_year(y: int) -> int:
+    """
+    post: _ != 0
+    """
+    return dtime_year_check(y)
